@@ -12,6 +12,9 @@ def lib():
         _st["so"] = ctypes.CDLL(build.compile_native(os.path.join(V, "replay", "fmt_replay.cc"), extra=["-I" + V] + rest, libs=["-lpthread"]))
     return _st["so"]
 def fmt(f, sec=0, fs=0, offset=0):
+    """cctz::format through the public API, in a forked child (a crash of the real code is returned as a description)"""
+    lib(); return common.isolated(_fmt, f, sec, fs, offset)
+def _fmt(f, sec=0, fs=0, offset=0):
     out = ctypes.create_string_buffer(256)
     n = lib().fr_format(f.encode(), ctypes.c_longlong(sec), ctypes.c_longlong(fs), ctypes.c_long(offset), out, 256)
     return out.raw[:n]
@@ -22,6 +25,8 @@ def libc_strftime(f, y, mo, d, hh, mm, ss, wday, yday):
     return out.raw[:n]
 
 def parse(f, data, offset=0):
+    lib(); return common.isolated(_parse, f, data, offset)
+def _parse(f, data, offset=0):
     sec = ctypes.c_longlong(); fs = ctypes.c_longlong()
     ok = lib().fr_parse(f.encode(), data, len(data), ctypes.c_long(offset), ctypes.byref(sec), ctypes.byref(fs))
     return (sec.value, fs.value) if ok else None
